@@ -31,6 +31,8 @@ class Walk:
         self.branches = ["main"]
         self.commits = []
         self.overlap = {}         # sha -> {path: lines added by the commit AND modified again (unstaged) at commit time}
+        self.human_inplace = set()  # files in which a person rewrote/modified lines in place
+        self.recon_taint = set()    # ... and that then went through an attribution reconstruction
 
     # ---------------------------------------------------------------- helpers
     def files(self):
@@ -107,11 +109,18 @@ class Walk:
             for t in new_texts:
                 self.wrote[who].add(norm(t))
             self.r.ai_checkpoint(who, [p], tool=S.TOOL)
+        if who == "human" and kind in ("replace", "modify"):
+            self.human_inplace.add(p)
         self.log(op="edit", who=who, path=p, kind=kind, content=lines)
+
+    RECON = (("reset", "--soft"), ("reset", "--mixed"), ("stash", "pop"), ("stash", "apply"), ("rebase",), ("cherry-pick",),
+             ("merge",), ("commit", "-q", "--amend"), ("revert",))
 
     def git(self, *args):
         rc, out, err = self.r.git(*args)
         self.log(op="git", args=list(args), rc=rc)
+        if rc == 0 and any(tuple(args[:len(k)]) == k for k in self.RECON):
+            self.recon_taint |= self.human_inplace
         return rc
 
     def op_commit(self):
@@ -254,6 +263,8 @@ class Walk:
         base = p[:-6] if p.endswith(".moved") else p
         if p in self.tainted or base in self.tainted or (p + ".moved") in self.tainted:
             sig = "pending-ai-lines-edited-by-person-before-next-checkpoint"
+        elif text is not None and text.startswith("hum-") and (p in self.recon_taint or base in self.recon_taint):
+            sig = "reconstruction-keeps-ai-on-line-rewritten-by-person"
         elif (kind == "note" and ln in self.overlap.get(sha, {}).get(p, set())) or \
                 (kind == "blame" and any(p in ov or base in ov for ov in self.overlap.values())):
             sig = "line-added-by-commit-was-modified-again-unstaged"
@@ -311,13 +322,15 @@ def replay_steps(steps):
                 elif w.initial_unconsumed(p):
                     w.tainted.add(p)
                 r.write(p, "".join(l + "\n" for l in st["content"]))
+                if who == "human" and st.get("kind") in ("replace", "modify"):
+                    w.human_inplace.add(p)
                 if who != "human":
                     for l in st["content"]:
                         if norm(l) not in old:
                             w.wrote[who].add(norm(l))
                     r.ai_checkpoint(who, [p], tool=S.TOOL)
             elif st["op"] == "git":
-                rc, _, _ = r.git(*st["args"])
+                rc = w.git(*st["args"])
                 if rc == 0 and st["args"][0] == "commit":
                     w.commits.append(r.head())
                     w.record_overlap()
